@@ -72,6 +72,9 @@ def plan(tier, seed):
             jobs.append({"k": "battery", "mode": name, "flavour": fl})
             jobs.append({"k": "probe", "mode": name, "flavour": fl, "blocks": 64, "workers": "2"})
             jobs.append({"k": "probe", "mode": name, "flavour": fl, "shebang": True})
+            if tier == "thorough":
+                for nb, w in ((8, "1"), (256, "1"), (256, "16"), (1000, "4")):
+                    jobs.append({"k": "probe", "mode": name, "flavour": fl, "blocks": nb, "workers": w})
     return jobs
 
 
